@@ -172,8 +172,8 @@ Proof.
   unfold dispatch_command, cmd_name. intros H Hf Hd j Hj Hn.
   destruct parts as [|first rest]; [inversion H; subst; reflexivity|].
   destruct first; try (inversion H; subst; reflexivity).
-  set (s0 := if mem_name (upper b) write_commands then log_aof s (FBulk b :: rest) else s) in *.
-  assert (H0 : get_db s0 j = get_db s j) by (unfold s0; destruct (mem_name (upper b) write_commands); reflexivity).
+  set (s0 := if mem_name (upper b) write_commands then log_aof_in s dbi (FBulk b :: rest) else s) in *.
+  assert (H0 : get_db s0 j = get_db s j) by (unfold s0; destruct (mem_name (upper b) write_commands); [unfold log_aof_in; destruct (same_db _ _)|]; reflexivity).
   rewrite <- H0. clear H0.
   destruct (beq (upper b) (bs "PING")); [inversion H; subst; reflexivity|].
   destruct (beq (upper b) (bs "ECHO")); [inversion H; subst; reflexivity|].
@@ -223,7 +223,7 @@ Qed.
 Lemma select_spec now s c dbi a oracle cn :
   zlookup c (s_conns s) = Some cn ->
   let s1 := lazy_expire now s dbi (bs "SELECT") [FBulk (bs "SELECT"); FBulk a] in
-  let s0 := if mem_name (bs "SELECT") write_commands then log_aof s1 [FBulk (bs "SELECT"); FBulk a] else s1 in
+  let s0 := if mem_name (bs "SELECT") write_commands then log_aof_in s1 dbi [FBulk (bs "SELECT"); FBulk a] else s1 in
   normal_command now s c dbi [FBulk (bs "SELECT"); FBulk a] oracle =
     match parse_usize a with
     | Some n => if 16 <=? n then (r_err, s0)
@@ -239,7 +239,8 @@ Proof.
   change (beq (bs "SELECT") (bs "SELECT")) with true. cbv iota.
   fold s1. fold s0. destruct (parse_usize a); [|reflexivity]. destruct (16 <=? z); [reflexivity|].
   assert (Hc0 : zlookup c (s_conns s0) = Some cn).
-  { unfold s0. destruct (mem_name (bs "SELECT") write_commands); cbn [log_aof s_conns];
+  { unfold s0. destruct (mem_name (bs "SELECT") write_commands);
+      [unfold log_aof_in; destruct (same_db _ _)|]; cbn [log_aof s_conns];
       unfold s1; rewrite (proj1 (lazy_expire_rest _ _ _ _ _)); exact Hc. }
   rewrite Hc0. reflexivity.
 Qed.
@@ -344,8 +345,8 @@ Proof.
   unfold dispatch_command. intros H c' Hn H0.
   destruct parts as [|first rest]; [inversion H; subst; reflexivity|].
   destruct first; try (inversion H; subst; reflexivity).
-  set (s0 := if mem_name (upper b) write_commands then log_aof s (FBulk b :: rest) else s) in *.
-  assert (Hs0 : s_conns s0 = s_conns s) by (unfold s0; destruct (mem_name (upper b) write_commands); reflexivity).
+  set (s0 := if mem_name (upper b) write_commands then log_aof_in s dbi (FBulk b :: rest) else s) in *.
+  assert (Hs0 : s_conns s0 = s_conns s) by (unfold s0; destruct (mem_name (upper b) write_commands); [unfold log_aof_in; destruct (same_db _ _)|]; reflexivity).
   rewrite <- Hs0. clear Hs0.
   destruct (beq (upper b) (bs "PING")); [inversion H; subst; reflexivity|].
   destruct (beq (upper b) (bs "ECHO")); [inversion H; subst; reflexivity|].
@@ -622,8 +623,8 @@ Proof.
     revert H. unfold dispatch_command.
     destruct parts as [|first rest]; [intros H; inversion H; reflexivity|].
     destruct first; try (intros H; inversion H; reflexivity).
-    set (s0 := if mem_name (upper b) write_commands then log_aof s (FBulk b :: rest) else s).
-    assert (Hp0 : s_password s0 = s_password s) by (unfold s0; destruct (mem_name (upper b) write_commands); reflexivity).
+    set (s0 := if mem_name (upper b) write_commands then log_aof_in s dbi (FBulk b :: rest) else s).
+    assert (Hp0 : s_password s0 = s_password s) by (unfold s0; destruct (mem_name (upper b) write_commands); [unfold log_aof_in; destruct (same_db _ _)|]; reflexivity).
     rewrite <- Hp0. clear Hp0.
     destruct (beq (upper b) (bs "PING")); [intros H; inversion H; reflexivity|].
     destruct (beq (upper b) (bs "ECHO")); [intros H; inversion H; reflexivity|].
